@@ -50,7 +50,61 @@ fn main() {
                 }
             }
         }
-        println!("OK: pops within n*n+n on complete DAGs n=2..14; layered graphs up to 56 functions build within the budget");
+        // graphs WITH data access: the data-edge pass searches for paths between conflicting functions; dense regions next
+        // to unreachable conflicting functions make a search without a visited set walk every path
+        let timed = |desc: String, accs: Vec<Acc>, edges: Vec<(usize, usize)>| {
+            let n = accs.len();
+            let ne = edges.len();
+            let (tx, rx) = std::sync::mpsc::channel();
+            let t0 = std::time::Instant::now();
+            std::thread::spawn(move || {
+                let mut b = FnGraphBuilder::new();
+                let ids: Vec<_> = accs.into_iter().map(|a| b.add_fn(a)).collect();
+                for (a, c) in edges { b.add_logic_edge(ids[a], ids[c]).unwrap(); }
+                fn_graph::verif_hooks::rank_calc_pops_reset();
+                let g = b.build();
+                let _ = tx.send((fn_graph::verif_hooks::rank_calc_pops(), g.graph.edge_count()));
+            });
+            match rx.recv_timeout(std::time::Duration::from_secs(20)) {
+                Ok((pops, _)) => if pops > n * n + n { println!("VIOLATION: {desc}: {pops} pops > n*n+n"); std::process::exit(1); },
+                Err(_) => {
+                    println!("VIOLATION: build() of {desc} ({n} functions, {ne} logic edges) did not finish within 20 s (elapsed {:?}): its work is not polynomial in functions and edges", t0.elapsed());
+                    std::process::exit(1);
+                }
+            }
+        };
+        let plain = |i: usize| Acc { id: i, reads: vec![], writes: vec![] };
+        let complete = |k: usize, off: usize| -> Vec<(usize, usize)> { let mut e = vec![]; for i in 0..k { for j in (i + 1)..k { e.push((off + i, off + j)); } } e };
+        for k in [16usize, 24, 30] {
+            // complete DAG t0..t(k-1), detached chain c0..c(k-1); t0 and the chain's end write the same type
+            let mut accs: Vec<Acc> = (0..2 * k).map(plain).collect();
+            accs[0].writes = vec![0]; accs[2 * k - 1].writes = vec![0];
+            let mut edges = complete(k, 0); edges.extend((0..k - 1).map(|i| (k + i, k + i + 1)));
+            timed(format!("complete DAG of {k} + detached chain of {k}, first and last function write one type"), accs, edges);
+            // the same with the chain declared first (ids reversed between the regions)
+            let mut accs: Vec<Acc> = (0..2 * k).map(plain).collect();
+            accs[k].writes = vec![0]; accs[k - 1].writes = vec![0];
+            let mut edges: Vec<(usize, usize)> = (0..k - 1).map(|i| (i, i + 1)).collect(); edges.extend(complete(k, k));
+            timed(format!("chain of {k} declared first + complete DAG of {k}, chain end and DAG root write one type"), accs, edges);
+            // every function of the dense region reads the type the chain's end writes
+            let mut accs: Vec<Acc> = (0..2 * k).map(plain).collect();
+            for a in accs.iter_mut().take(k) { a.reads = vec![0]; }
+            accs[2 * k - 1].writes = vec![0];
+            let mut edges = complete(k, 0); edges.extend((0..k - 1).map(|i| (k + i, k + i + 1)));
+            timed(format!("complete DAG of {k} readers + detached chain of {k} ending in a writer"), accs, edges);
+            // two detached complete DAGs, every function writes the same type
+            let accs: Vec<Acc> = (0..2 * k).map(|i| Acc { id: i, reads: vec![], writes: vec![0] }).collect();
+            let mut edges = complete(k, 0); edges.extend(complete(k, k));
+            timed(format!("two detached complete DAGs of {k} writers of one type"), accs, edges);
+        }
+        for (width, layers) in [(3usize, 14usize), (2, 24)] {
+            let n = width * layers;
+            let accs: Vec<Acc> = (0..n).map(|i| Acc { id: i, reads: if i % 2 == 0 { vec![0] } else { vec![] }, writes: if i % 2 == 1 { vec![0] } else { vec![1] } }).collect();
+            let mut edges = vec![];
+            for l in 0..layers - 1 { for a in 0..width { for c in 0..width { edges.push((l * width + a, (l + 1) * width + c)); } } }
+            timed(format!("layered {width}x{layers} with data access on every function"), accs, edges);
+        }
+        println!("OK: pops within n*n+n on complete DAGs n=2..14; layered graphs up to 56 functions and dense graphs with conflicting detached functions (60 functions) build within the budget");
     }
     #[cfg(not(feature = "hooks"))]
     println!("built without hooks");
